@@ -298,6 +298,40 @@ def run_histories(prop, cfg, nhist, seed, start_id, embname="dy", poolname="asci
     return events
 
 
+def sim_histories(prop, cfg, tier, work, res, nbeh, start_id, embname="dy", poolname="ascii"):
+    """spec -> code along behaviours: random walks of MC_Tier (calls alternating with Adopt/Continue) generated by
+    TLC -simulate and replayed step by step on live tier objects"""
+    consts = dict(cfg[tier])
+    fn = os.path.join(work, "MC_Tier_sim.cfg")
+    common.write_cfg(fn, dict(N=consts["N"], K=consts["K"], Ops=set(cfg["ops"]), Kinds=set(cfg["kinds"]), Depth=6, OneSpan=False,
+                              Slice=0, NSlices=1, Emit=False), invariants=["NoFail", "RecvWF"], constraints=["Bound"])
+    beh, r = common.simulate_behaviours("MC_Tier", fn, work, nbeh, 13)
+    res.transitions += r["generated"]
+    emb, pool = T.EMBS[embname], T.POOLS[poolname]
+    textgrid = T.praatio()[0]
+    events, eid, drift_n = [], start_id, 0
+    for h, states in enumerate(beh):
+        live = T.mk_tier(states[0]["recv"], emb, pool)
+        for k, st in enumerate(states):
+            o = st["out"]
+            if o.get("op", "none") == "none":
+                continue
+            vec = {"op": o["op"], "args": o["args"], "pre": o["pre"], "arg": o["arg"]}
+            ev, ret = T.run_vector(vec, emb, pool, eid, recv=live)
+            ev["hist"], ev["step"] = h, k
+            if (ev["st"], ev["ret"], ev["post"]) != (o["st"], o["ret"], o["post"]):
+                drift_n += 1
+            events.append(ev)
+            eid += 1
+            # the model continues with the returned tier (Adopt) or with the receiver (Continue)
+            nxt = states[k + 1]["recv"] if k + 1 < len(states) else None
+            if nxt is not None and o["st"] == "ok" and o["ret"].get("kind") != "none" and nxt == o["ret"] and nxt != o["post"]:
+                if isinstance(ret, (textgrid.IntervalTier, textgrid.PointTier)):
+                    live = ret
+    res.notes["simulated"] = dict(behaviours=len(beh), steps=len(events), drift=drift_n)
+    return events
+
+
 def rand_vectors_on(pre, cfg, rng, HI):
     """one random vector whose receiver is the given abstract tier (coarse grid for histories)"""
     return rand_vectors_small(cfg, rng, pre, HI)
@@ -448,6 +482,7 @@ def check(prop, tier):
         nh = cfg.get("histories_" + tier, 0)
         if nh:
             process(run_histories(prop, cfg, nh, common.SEED, 0))
+            process(sim_histories(prop, cfg, tier, work, res, max(50, nh // 4), 0))
         # the Textgrid-level counterparts named by the property
         if prop in TG_PARTS:
             from . import checks_tg
